@@ -71,6 +71,11 @@ def late_reader_cfg(n_peer, n_gets, fine=(0,), reorder=0):
 def scenarios(tier):
     S = []
     S.append(mk("late-reader-3msgs-3gets", late_reader_cfg(3, 3, reorder=0 if tier == "quick" else 1), max_depth=90, max_states=300000))
+    # the server begins the WebSocket closing handshake while the application keeps sending (those sends raise), then the
+    # connection goes away and comes back: every message handed to send_message still arrives once, in order
+    wc = cfg([b"m0", b"m1", b"m2"], [], fine=(0,), drops=(1, 0), explored=("down", "up", "api", "connect", "drop", "wsclosing"))
+    wc["wsclosing"] = True
+    S.append(mk("bfs-3+0-fineA-wsclosing-drop1", wc, max_depth=90, max_states=400000))
     if tier == "quick":
         S.append(mk("bfs-2+1-fineA", cfg(A2, B1, fine=(0,)), max_depth=80))
         S.append(mk("bfs-1+2-fineB", cfg(B1, B2, fine=(1,)), max_depth=80))
